@@ -289,6 +289,69 @@ fn run_depth(shape: &str, n: Option<u64>, d: u64, probe: bool) -> (DepthOutcome,
     (out, r.probe)
 }
 
+/// The limit is (re)configured on an evaluator that has already evaluated something. Whatever the
+/// call answers - refused with an error (then the earlier maximum stays in force) or accepted (then
+/// the new one is) - the maximum in force afterwards must be the one the embedder was told.
+/// Returns (accepted, largest depth of direct recursion that succeeds afterwards).
+fn late_limit(first: Option<u64>, late: u64, upto: u64) -> Result<(bool, Option<u64>), String> {
+    kit::ctx_reset();
+    let mut out = Err("not run".to_owned());
+    Module::with_temp_heap(|module| {
+        let mut eval = Evaluator::new(&module);
+        if let Some(f) = first {
+            let _ = eval.set_max_callstack_size(f as usize);
+        }
+        let warm = "def r(k):\n    if k == 0:\n        return 0\n    return 1 + r(k - 1)\nemit(r(1))\n";
+        match kit::parse("warm.star", warm) {
+            Ok(ast) => {
+                if let Err(e) = eval.eval_module(ast, kit::globals()) {
+                    out = Err(format!("warm-up failed: {e}"));
+                    return;
+                }
+            }
+            Err(e) => {
+                out = Err(format!("{e}"));
+                return;
+            }
+        }
+        let accepted = eval.set_max_callstack_size(late as usize).is_ok();
+        let mut last_ok = None;
+        let mut seen_fail = false;
+        for d in 0..=upto {
+            let r = match kit::parse("probe.star", &format!("emit(r({d}))\n")) {
+                Ok(ast) => eval.eval_module(ast, kit::globals()).map(|_| ()),
+                Err(e) => Err(e),
+            };
+            match r {
+                Ok(()) => {
+                    if seen_fail {
+                        out = Err(format!("depth {d} succeeds after a smaller depth overflowed"));
+                        return;
+                    }
+                    last_ok = Some(d);
+                }
+                Err(e) => {
+                    if !matches!(e.kind(), starlark::ErrorKind::StackOverflow(_)) {
+                        let text = format!("{e}");
+                        if d == 0 && text.contains("call stack is already allocated") {
+                            // The re-configuration is refused when the next evaluation starts (the
+                            // stack of the first evaluation has another size): no limit was changed.
+                            out = Err("REFUSED-AT-EVALUATION".to_owned());
+                            return;
+                        }
+                        out = Err(format!("depth {d}: wrong error {}", kit::clip(&text)));
+                        return;
+                    }
+                    seen_fail = true;
+                }
+            }
+        }
+        out = Ok((accepted, last_ok));
+    });
+    kit::ctx_reset();
+    out
+}
+
 /// Largest depth in lo..=hi that succeeds under limit n, after checking there is one threshold.
 fn threshold(o: &mut Outcome, shape: &str, n: u64, lo: u64, hi: u64, key: &str) -> Option<u64> {
     let mut last_ok: Option<u64> = None;
@@ -730,6 +793,29 @@ impl World for C15 {
                     let pr = fresh_probe();
                     if !pok || pt != pr {
                         o.violate("probe-differs-after-limit", &key, format!("after overflow: probe ok={pok} `{perr}` {:?}", kit::diff_transcripts(&pr, &pt)));
+                    }
+                }
+                // The limit configured (again) after the evaluator has already been used.
+                if shape == "direct" && n >= 3 {
+                    let first = if case["default_limit"].as_bool().unwrap_or(false) { None } else { Some(*[5u64, 10, 50, 80].get((n % 4) as usize).unwrap_or(&50)) };
+                    let eff_first = first.unwrap_or(50);
+                    let upto = eff_first.max(n) + 3;
+                    match late_limit(first, n, upto) {
+                        Err(e) if e == "REFUSED-AT-EVALUATION" => o.bump("probe.late_limit_refused_when_next_evaluation_starts", 1),
+                        Err(e) => o.violate("depth-limit-not-enforced", "depth/late", format!("limit {first:?} then {n} after a first evaluation: {e}")),
+                        Ok((accepted, got)) => {
+                            o.bump(if accepted { "probe.late_limit_accepted" } else { "probe.late_limit_refused" }, 1);
+                            let in_force = if accepted { n } else { eff_first };
+                            let want = threshold(&mut o, "direct", in_force, 0, upto, "depth/direct");
+                            // `upto` caps what can be observed.
+                            if got != want {
+                                o.violate(
+                                    "depth-limit-not-enforced",
+                                    "depth/late",
+                                    format!("max call stack size {first:?} at first, then set to {n} after one evaluation (call {}): recursion succeeds up to depth {got:?}, a fresh evaluator with limit {in_force} up to {want:?}", if accepted { "accepted" } else { "refused" }),
+                                );
+                            }
+                        }
                     }
                 }
                 // A large limit with deep-but-finite recursion must succeed.
